@@ -125,13 +125,14 @@ def emit_param_str(
                         else (None if name == "return_type" else name)
                     ),
                     (
-                        _fill(
-                            indent(
+                        # wrap first, then indent: every line of the description belongs under the name
+                        indent(
+                            _fill(
                                 set_default_doc(
                                     (name, _param), emit_default_doc=emit_default_doc
-                                )[1]["doc"],
-                                tab,
-                            )
+                                )[1]["doc"]
+                            ),
+                            tab,
                         )
                         if emit_doc and _param.get("doc")
                         else None
